@@ -676,6 +676,19 @@ Proof.
   apply reachable_INV; [exact Hi|exact Hok|apply reachable_a_b; exact Hr].
 Qed.
 
+(** the invariant, spelled out *)
+Theorem reachable_tinv_explicit ih ivs s :
+  1 <= ih -> vs_ok ivs = true -> 0 < sum_pows (vs_pows ivs) -> reachable_a ih ivs s ->
+  (1 <= sm_avail (v_sum (k_vot s)) /\ sm_avail (v_sum (k_vot s)) < two64) /\
+  (1 <= sm_avail (v_sum (k_nxt s)) /\ sm_avail (v_sum (k_nxt s)) < two64) /\
+  (forall ch, k_chdr s = Some ch -> 0 < sum_pows (vs_pows (hd_vals ch))) /\
+  (forall p, In p (v_phs (k_vot s)) \/ In p (v_phs (k_nxt s)) ->
+     0 < sum_pows (vs_pows (hd_vals (ph_hdr p))) /\ 0 < sum_pows (vs_pows (hd_next (ph_hdr p)))).
+Proof.
+  intros H1 H2 H3 H4. destruct (reachable_tinv ih ivs s H1 H2 H3 H4) as [(A&B&C) D].
+  split; [exact A|]. split; [exact B|]. split; [exact C|exact D].
+Qed.
+
 (** ** The theorem *)
 Theorem kernel_messages_never_panic ih ivs s o :
   1 <= ih -> vs_ok ivs = true -> 0 < sum_pows (vs_pows ivs) ->
